@@ -3,6 +3,7 @@ from __future__ import annotations
 
 import hashlib
 import importlib
+import contextlib
 import json
 import multiprocessing as mp
 import os
@@ -211,6 +212,28 @@ def run_pool(modname: str, specs: list[dict], procs: int = NSHARDS):
             return list(pool.map(_worker, [(modname, s) for s in specs], chunksize=1))
     except BrokenProcessPool as exc:
         return [("harness", f"a shard worker process died: {exc}")]
+
+
+class Hang(BaseException):
+    """Raised by deadline(): the code under test did not come back (BaseException: not swallowed by 'except Exception')."""
+
+
+@contextlib.contextmanager
+def deadline(seconds: float):
+    """Bound a call into the library by wall-clock time (SIGALRM; main thread of a worker process). Used where the
+    property says 'ends or raises': a parser that spins is a violation, not something to wait for."""
+    import signal
+
+    def on_alarm(signum, frame):
+        raise Hang()
+
+    old = signal.signal(signal.SIGALRM, on_alarm)
+    signal.setitimer(signal.ITIMER_REAL, seconds)
+    try:
+        yield
+    finally:
+        signal.setitimer(signal.ITIMER_REAL, 0)
+        signal.signal(signal.SIGALRM, old)
 
 
 # --------------------------------------------------------------------------- main
